@@ -27,6 +27,7 @@ import re._parser as sre_parse
 import re._constants as SC
 
 from .core import AnalysisError
+from .core import model_token
 from .absint import (Interp, Obj, ClassVal, AbsRaise, Unsupported, Native, Closure)
 
 TEXT_MODULES = ("parser", "parser_tools")
@@ -1029,7 +1030,7 @@ _CACHE = {}
 
 
 def report(ctx, rule, fn, laws, loc, floor, select=None, known_laws=None):
-    key = (id(ctx.model), fn.__name__, ctx.thorough)
+    key = (model_token(ctx.model), fn.__name__, ctx.thorough)
     if key not in _CACHE:
         _CACHE[key] = fn(ctx)
     F = _CACHE[key]
